@@ -89,6 +89,7 @@ type State struct {
 	cuts    map[string]bool
 	subMemo map[string]*Term
 	memoShared bool
+	written map[string]bool // cells stored to since entry (even if the old value was stored back)
 	pendingFork *Term // case split requested by a `fork` clause, taken after the current instruction
 	entryNonzero map[string]bool
 	nonzero map[string]bool // residue atoms known to be non-zero (exponents reduce by Fermat)
@@ -122,6 +123,12 @@ func (s *State) fork() *State {
 		n.cuts[k] = true
 	}
 	n.entrySubst = s.entrySubst
+	if len(s.written) > 0 {
+		n.written = make(map[string]bool, len(s.written))
+		for k := range s.written {
+			n.written[k] = true
+		}
+	}
 	n.entryNonzero = s.entryNonzero
 	if len(s.nonzero) > 0 {
 		n.nonzero = make(map[string]bool, len(s.nonzero))
@@ -640,6 +647,7 @@ func (e *Engine) storePath(st *State, r *Region, path []int, t types.Type, v Val
 		return
 	}
 	st.mem.cells[pathKey(r.id, path)] = v
+	st.markWritten(pathKey(r.id, path))
 }
 
 func (e *Engine) dynArr(st *State, r *Region) *Term {
@@ -723,6 +731,7 @@ func (e *Engine) store(st *State, p *PtrVal, v Value) {
 	if p.reg.dyn {
 		arr := e.dynArr(st, p.reg)
 		st.mem.cells[pathKey(p.reg.id, nil)] = mkStore(arr, p.sym, v.(*Term))
+		st.markWritten(pathKey(p.reg.id, nil))
 		return
 	}
 	t := subType(p.reg.typ, p.path)
@@ -754,6 +763,7 @@ func (e *Engine) sliceElemStore(st *State, s *SliceVal, k *Term, v *Term) {
 	idx := mkAdd(s.off, k)
 	if s.reg.dyn {
 		st.mem.cells[pathKey(s.reg.id, nil)] = mkStore(e.dynArr(st, s.reg), idx, v)
+		st.markWritten(pathKey(s.reg.id, nil))
 		return
 	}
 	if idx.IsConst() {
@@ -2353,4 +2363,11 @@ func init() {
 			return &c
 		}
 	}
+}
+
+func (s *State) markWritten(key string) {
+	if s.written == nil {
+		s.written = map[string]bool{}
+	}
+	s.written[key] = true
 }
